@@ -536,6 +536,18 @@ def r5_copy_protocol(rep, src):
                      where='%s:%d' % (mod.relpath, stores[0].lineno))
     if n < 1:
         raise AnalysisError('no class with weak references found in _util (the linked list changed?)')
+    # the key objects of a paragraph: a class with non-empty __slots__ (and no __dict__) is not reducible by pickle protocols 0 and 1
+    # unless it defines __reduce__ / __getstate__ ("a class that defines __slots__ without defining __getstate__ cannot be pickled")
+    ci = mod.classes.get('_CaseInsensitiveString')
+    if ci is None:
+        raise AnalysisError('_util:_CaseInsensitiveString not found')
+    slots = [st for st in ci.body if isinstance(st, ast.Assign) and norm(st.targets[0]) == '__slots__' and isinstance(st.value, (ast.List, ast.Tuple)) and st.value.elts]
+    what = 'key strings with __slots__ say how they are reduced'
+    if not slots or any(mod.method('_CaseInsensitiveString', m_) is not None for m_ in ('__reduce__', '__reduce_ex__', '__getstate__')):
+        rep.ok('C09.R5', '_util:_CaseInsensitiveString', what, '__reduce__ / __getstate__ defined' if slots else 'no __slots__')
+    else:
+        rep.fail('C09.R5', '_util:_CaseInsensitiveString', what, 'the class defines __slots__ %s and neither __reduce__ nor __getstate__: pickle.dumps(paragraph, 0) and '
+                 'pickle.dumps(paragraph, 1) raise TypeError (protocols 2 and later work)' % norm(slots[0].value), where='%s:%d' % (mod.relpath, slots[0].lineno))
 
 
 def check(src, rep, tier):
@@ -553,5 +565,5 @@ def check(src, rep, tier):
     rep.guard('C09.R3', r3_list_shapes, src, tier)
     rep.guard('C09.R2', r2_r4_orderedset, src, tier)
     rep.guard('C09.R1', r1_key_normalisation, src)
-    rep.need('C09.R5', 1)
+    rep.need('C09.R5', 2)
     rep.guard('C09.R5', r5_copy_protocol, src)
